@@ -15,7 +15,7 @@ if ported:
     shutil.copy(ported, os.path.join(d, "patch_ported_to_fixed_tree.diff"))
 os.makedirs(os.path.join(d, "demo"), exist_ok=True)
 for root, dirs, files in os.walk(seed):
-    dirs[:] = [x for x in dirs if x not in ("target", "out", "logs")]
+    dirs[:] = [x for x in dirs if x not in ("target", "out", "logs", "tgt", "shared-target")]
     for f in files:
         p = os.path.join(root, f)
         if f == "patch.diff" or os.path.getsize(p) > 200_000 or f.endswith(".log") and "suite" in f:
